@@ -13,7 +13,10 @@ REPO = os.environ.get("VERIF_REPO", "/repo")
 
 
 def sh(cmd, cwd=None, env=None, timeout=1800):
-    p = subprocess.run(cmd, shell=True, cwd=cwd, capture_output=True, text=True, env=env, timeout=timeout)
+    try:
+        p = subprocess.run(cmd, shell=True, cwd=cwd, capture_output=True, text=True, env=env, timeout=timeout, start_new_session=True)
+    except subprocess.TimeoutExpired:
+        return 124, "TIMEOUT after %d s: %s" % (timeout, cmd)
     return p.returncode, p.stdout + p.stderr
 
 
@@ -44,6 +47,7 @@ def eval_one(name, repo):
     deductive = [o for o in obls if not o.startswith("bounded:")]
     ev = {"demo_exit_unchanged": pre, "demo_exit_with_patch": post, "repository_tests_with_patch": tests.strip(), "check": "./check %s --tier quick" % prop,
           "check_exit": crc, "violations": obls[:8], "undecided": len(und), "caught_by_deductive_obligation": bool(deductive), "caught_by_bounded_stand_in": any(o.startswith("bounded:") for o in obls),
+          "violations_with_replayed_input": sum(1 for l in vio if "no-failing-input-found" not in l), "violations_without_input": sum(1 for l in vio if "no-failing-input-found" in l),
           "wall_s": round(wall, 1)}
     meta["evaluation"] = ev
     json.dump(meta, open(os.path.join(d, "meta.json"), "w"), indent=1)
@@ -88,7 +92,20 @@ def main():
         finally:
             for wt in trees:
                 sh("git -C %s worktree remove --force %s" % (REPO, wt))
-    with open(os.path.join(VERIF, "seeded", "RESULTS.md"), "w") as f:
+    # rows of seeds not evaluated in this run are kept from the existing table
+    path = os.path.join(VERIF, "seeded", "RESULTS.md")
+    have = {r[0]: r for r in rows}
+    if os.path.exists(path):
+        for line in open(path):
+            c = [x.strip() for x in line.strip().strip("|").split(" | ")]
+            if len(c) == 7 and c[0] not in have and os.path.exists(os.path.join(VERIF, "seeded", c[0], "patch.diff")):
+                have[c[0]] = tuple(c)
+
+    def key(n):
+        a, b = n.split("-")
+        return (a, int(b))
+    rows = [have[n] for n in sorted(have, key=key)]
+    with open(path, "w") as f:
         f.write("# Seeded property-breaking changes vs the checks (quick tier)\n\n| seed | property | demo (unchanged) | demo (patched) | repo tests (patched) | check exit | first catching obligation |\n|---|---|---|---|---|---|---|\n")
         for r in rows:
             f.write("| " + " | ".join(r) + " |\n")
